@@ -17,6 +17,7 @@ BIN="$ROOT/fuzz/target/x86_64-unknown-linux-gnu/release/$T"
 SEED="${VERIF_SEED:-1}"; [ "$SEED" = 0 ] && SEED=1
 JOBS="${PPV_FUZZ_JOBS:-8}"
 RUNS="${PPV_FUZZ_RUNS:-150000}"      # per job
+MAXT="${PPV_FUZZ_MAXTIME:-300}"     # seconds per job: a slow oracle (C13: 384-bit arithmetic per case) ends the campaign early - fewer runs, never a violation
 W="$ROOT/work/fuzz-$T-$$"
 rm -rf "$W"; mkdir -p "$W/corpus" "$W/artifacts"
 # fresh copy of the committed seed corpus
@@ -24,7 +25,7 @@ cp "$ROOT/fuzz/seeds/common/"* "$W/corpus/" 2>/dev/null
 [ -d "$ROOT/fuzz/seeds/$T" ] && cp "$ROOT/fuzz/seeds/$T/"* "$W/corpus/" 2>/dev/null
 export VERIF_ROOT="$ROOT"
 export ASAN_OPTIONS="${ASAN_OPTIONS:-abort_on_error=1:detect_leaks=0}"
-( cd "$W" && timeout -k 10 3000 "$BIN" corpus -runs="$RUNS" -seed="$SEED" -len_control=0 -max_len=512 \
+( cd "$W" && timeout -k 10 3000 "$BIN" corpus -runs="$RUNS" -max_total_time="$MAXT" -seed="$SEED" -len_control=0 -max_len=512 \
     -jobs="$JOBS" -workers="$JOBS" -print_final_stats=1 -artifact_prefix="$W/artifacts/" >"$W/driver.log" 2>&1 )
 python3 - "$W" "$T" "$ID" "$OUT" "$ROOT" "$RUNS" "$JOBS" "$SEED" <<'PY'
 import sys, os, re, json, glob, shutil
